@@ -378,7 +378,24 @@ def k8_run(carve):
                     continue
                 if got != want[name]:
                     bad.append(f"[{be}] {name} of d.cast(Datetime) / numeric casts: {got}; documented {want[name]}")
-    return _enum_outcome("cast results take part in later comparisons / functions / casts like stored values of the target type", n, bad)
+        # a cast inside a join key is applied before the keys are compared (Float -> Int truncates toward zero)
+        gf = pl.DataFrame({"g": [3.0, 3.7, -3.0, 0.0], "gi": [3, 9, -3, 0]})
+        gf.write_database("g", eng)
+        pairs = sorted((h, g) for h, f in zip(df["h"].to_list(), df["f"].to_list()) for g in gf["g"].to_list() if f is not None and float(int(f)) == g)
+        for be in ("polars", "sqlite"):
+            t, g = (pdt.Table(df, name="t"), pdt.Table(gf, name="g")) if be == "polars" else (pdt.Table("t", pdt.SqlAlchemy(eng)), pdt.Table("g", pdt.SqlAlchemy(eng)))
+            for label, on in (("f.cast(Int64) == g (Float64 key)", lambda: t.f.cast(pdt.Int64()) == g.g), ("g == f.cast(Int64)", lambda: g.g == t.f.cast(pdt.Int64())), ("f.cast(Int64) == gi.cast(Float64)", lambda: t.f.cast(pdt.Int64()) == g.gi.cast(pdt.Float64()))):
+                n += 1
+                try:
+                    out = t >> pdt.inner_join(g, on()) >> pdt.select(t.h, g.g) >> pdt.export(pdt.Polars())
+                    want_p = pairs if "gi" not in label else sorted((h, gg) for h, f in zip(df["h"].to_list(), df["f"].to_list()) for gg, gi in zip(gf["g"].to_list(), gf["gi"].to_list()) if f is not None and int(f) == gi)
+                    if sorted(out.rows()) != want_p:
+                        bad.append(f"[{be}] inner_join on {label}: pairs {sorted(out.rows())}, documented {want_p}")
+                except (pdt.errors.SubqueryError, pdt.errors.NotSupportedError):
+                    pass
+                except Exception as ex:  # noqa: BLE001
+                    bad.append(f"[{be}] inner_join on {label}: raises {type(ex).__name__}: {str(ex)[:100]}")
+    return _enum_outcome("cast results take part in later comparisons / functions / casts / join keys like stored values of the target type", n, bad)
 
 
 def k7_run(carve):
